@@ -132,7 +132,12 @@ def gen_op(rng, touched):
     if kind == "refresh":
         return {"op": "refresh"}
     if kind == "device":
-        return {"op": "set", "arg": [["device", rng.choice(DEVICES)]], "kwargs": []}
+        # the same request through its alternative entry points: set({"device": v}), set(device=v), set_device(v)
+        via = rng.choice(["arg", "kw", "set_device"])
+        v = rng.choice(DEVICES)
+        if via == "kw":
+            return {"op": "set", "arg": [], "kwargs": [["device", v]]}
+        return dict({"op": "set", "arg": [["device", v]], "kwargs": []}, **({"via": "set_device"} if via == "set_device" else {}))
     return {"op": "set", "arg": [["viz.device", rng.choice(DEVICES)]], "kwargs": []}
 
 
@@ -256,7 +261,10 @@ def run_sequence(ctx, drv, cfgmod, ops, init, env, module_state):
         inside = None
         try:
             if kind == "set":
-                cfgmod.set(dict((k, real(v)) for k, v in op["arg"]), **{k: real(v) for k, v in op["kwargs"]})
+                if op.get("via") == "set_device":
+                    cfgmod.set_device(real(op["arg"][0][1]))
+                else:
+                    cfgmod.set(dict((k, real(v)) for k, v in op["arg"]), **{k: real(v) for k, v in op["kwargs"]})
                 res = {"ok": None}
             elif kind == "with":
                 with cfgmod.set(dict((k, real(v)) for k, v in op["arg"]), **{k: real(v) for k, v in op["kwargs"]}):
@@ -283,8 +291,14 @@ def run_sequence(ctx, drv, cfgmod, ops, init, env, module_state):
             res = {"err": err_name(e)}
             exc = e
         after = copy.deepcopy(cfgmod.config)
+        if "device" in after:
+            # the three readers of the stored device agree
+            readers = {"get": cfgmod.get("device"), "get_device": cfgmod.get_device(), "device": cfgmod.device()}
+            if len({json.dumps(v, default=str) for v in readers.values()}) != 1 or readers["get"] != after["device"]:
+                ctx.pred_fail("device-readers-disagree", "get('device'), get_device() and device() do not return the stored device",
+                              {"init": init, "ops": ops[: i + 1], "env": env}, observed={k: str(v) for k, v in readers.items()}, required=str(after["device"]))
         # --- model
-        mreq = {k: (v if k not in ("arg", "kwargs") else [[a, to_tree(b)] for a, b in v]) for k, v in op.items()}
+        mreq = {k: (v if k not in ("arg", "kwargs") else [[a, to_tree(b)] for a, b in v]) for k, v in op.items() if k != "via"}
         if kind == "update_defaults":
             mreq["new"] = to_tree(op["new"])
         m = drv.ask(mreq)
